@@ -48,7 +48,20 @@ LineAccept(r, moves, endp) ==
   /\ (endp = <<0, 0, 0>> => R = {<<0, 0, 0>>}) \* both end points in one voxel: that single ID
 
 \* ---- corridor (C14) -------------------------------------------------------
+\* distance of two horizontal indices; circular when the world is small (mod > 0)
+HDist(a, b, mod) == IF mod > 0 THEN MinOf((a - b) % mod, (b - a) % mod) ELSE Abs(a - b)
 \* offsets within hl layers horizontally and vl vertically of some line voxel
-WithinLayers(p, L, hl, vl) ==
-  \E q \in L : Abs(p[1] - q[1]) <= hl /\ Abs(p[2] - q[2]) <= hl /\ Abs(p[3] - q[3]) <= vl
+WithinLayers(p, L, hl, vl, mod) ==
+  \E q \in L : HDist(p[1], q[1], mod) <= hl /\ HDist(p[2], q[2], mod) <= hl /\ Abs(p[3] - q[3]) <= vl
+
+\* acceptance of the two corridor results (measured rm, measurement skipped rs)
+\* for the line L and the largest layer counts fitH / fitV over the line
+CorridorAccept(rm, rs, L, fitH, fitV, zeroRadius, far, mod) ==
+  LET M == Range(rm)  S == Range(rs)  LL == Range(L) IN
+  /\ Cardinality(M) = Len(rm) /\ Cardinality(S) = Len(rs)      \* duplicate-free
+  /\ LL \subseteq M /\ LL \subseteq S                          \* always contains the line itself
+  /\ (zeroRadius => M = LL /\ S = LL)                          \* radius 0: exactly the line
+  /\ \A p \in S \ LL : WithinLayers(p, LL, fitH, fitV, mod)    \* inside the search box of the fitted layers
+  /\ M \subseteq S                                             \* measuring only removes voxels
+  /\ far = <<>>                                                \* nothing farther than the radius is added
 =============================================================================
